@@ -31,7 +31,8 @@ class Poly(Problem):
         D = DATA[dat]
         self.D = D
         self.fmt = fmt
-        self.mdtype = int if int_dtype else float     # integer-valued derivatives returned with an integer dtype
+        # integer-valued derivatives returned with an integer dtype; int_dtype may also name a dtype (e.g. bool for 0/1 data)
+        self.mdtype = int_dtype if isinstance(int_dtype, type) else (int if int_dtype else float)
         self.cache = {}                               # callbacks may hand out the same (cached) object again
         lo = np.array([fv(ROWS[k][0]) for k in kinds])
         hi = np.array([fv(ROWS[k][1]) for k in kinds])
@@ -64,6 +65,35 @@ class Poly(Problem):
             H = np.array([[D["q"][0] + y[0] * D["d"][0] + y[1] * D["d"][1], D["r"]], [D["r"], D["q"][1]]], dtype=float)
             self.cache[key] = sps.coo_matrix(H.astype(self.mdtype)).asformat(self.fmt)
         return self.cache[key]
+
+
+DATA[3] = dict(q=(1, 1), r=0, p=(1, -1), A=((1, 0), (1, 1)), d=(0, 0), lx=(-4, -INF), ux=(4, 6))     # 0/1 Jacobian and Hessian
+
+
+def dtype_cases(chk):
+    """The internal derivatives do not depend on the dtype in which a callback returns them: 0/1 matrices returned as bool, int8,
+    uint8, float32 against float64, under scalings with non-zero exponents, for every pair of row kinds."""
+    kinds = ("eq0", "eq", "lower", "upper", "ranged", "free")
+    k = 0
+    for k1 in kinds:
+        for k2 in kinds:
+            for (vw, cw, ow) in (((1, -2), (2, -1), 1), ((-1, 1), (0, 3), -2)):
+                k += 1
+                fmt = ("coo", "csr", "csc")[k % 3]
+                sc = Scaling(np.array(vw, dtype=int), np.array(cw, dtype=int), int(ow))
+                params = Params(scaling=sc, scaling_type=ScalingType.Custom)
+                ref = None
+                for dt in (float, bool, np.int8, np.uint8, np.float32):
+                    tr = Transformation(Poly(3, (k1, k2), fmt, dt), params)
+                    it = tr.create_transformed_iterate(np.array([1.0, -2.0]), np.array([2.0, -1.0]))
+                    got = (tr.evaluator.cons_jac(it.x).toarray(), tr.evaluator.lag_hess(it.x, it.y).toarray())
+                    if ref is None:
+                        ref = got
+                    elif not (same(got[0], ref[0]) and same(got[1], ref[1])):
+                        chk.kernel_violation(("transform.callback_dtype", np.dtype(dt).name, fmt),
+                                             {"kinds": [k1, k2], "vw": list(vw), "cw": list(cw), "ow": ow, "dtype": np.dtype(dt).name,
+                                              "jac": got[0].tolist(), "jac_float64": ref[0].tolist()})
+                    chk.case(("dtype", k, np.dtype(dt).name))
 
 
 def same(a, b):
@@ -137,6 +167,7 @@ def main():
                 chk.kernel_violation(("transform." + e, tuple(c["kinds"]), "int" if si % 5 == 0 else "float"),
                                      {"case": _plain(c), "expected": _plain(out), "callback_dtype": "int" if si % 5 == 0 else "float"})
         chk.traces += chk.cases
+    dtype_cases(chk)
     chk.assumptions += ["exactness domain: small integer data, weights in -2..1; all quantities are multiples of 2^-8 and exact in binary64 "
                         "(invariant C04_Exact of the spec)", "overflow/underflow excluded as in the statement"]
     return chk.finish(rule="TLC enumerates weights x row-kind pairs (eq0, eq!=0, lower, upper, ranged, free) x points x multipliers x data and "
